@@ -14,10 +14,38 @@ type ReplaceReference struct {
 
 func (pass *ReplaceReference) Process(schemas []*ast.Schema) ([]*ast.Schema, error) {
 	visitor := Visitor{
-		OnRef: pass.processRef,
+		OnRef:         pass.processRef,
+		OnDisjunction: pass.processDisjunction,
 	}
 
 	return visitor.VisitSchemas(schemas)
+}
+
+func (pass *ReplaceReference) processDisjunction(visitor *Visitor, schema *ast.Schema, def ast.Type) (ast.Type, error) {
+	var err error
+
+	// the discriminator mapping refers to the branches by type name: it follows
+	// the branches that are replaced.
+	for _, branch := range def.Disjunction.Branches {
+		if !branch.IsRef() || !pass.From.MatchesRef(branch.AsRef()) {
+			continue
+		}
+
+		for discriminator, typeName := range def.Disjunction.DiscriminatorMapping {
+			if typeName == branch.AsRef().ReferredType {
+				def.Disjunction.DiscriminatorMapping[discriminator] = pass.To.Object
+			}
+		}
+	}
+
+	for i, branch := range def.Disjunction.Branches {
+		def.Disjunction.Branches[i], err = visitor.VisitType(schema, branch)
+		if err != nil {
+			return ast.Type{}, err
+		}
+	}
+
+	return def, nil
 }
 
 func (pass *ReplaceReference) processRef(_ *Visitor, _ *ast.Schema, def ast.Type) (ast.Type, error) {
